@@ -13,6 +13,12 @@ LEVEL_TEXT = ("Static analysis of /repo's current source (go/packages + go/ssa, 
 
 # id -> (technique, what is decided, design_ref)
 CLAIMED = {
+    "C06": ("taint (caller-owned slice), guard dominance, never-after reachability, header byte-order agreement, wrap-test-after-advance must-pass rule, path-sensitive linear normal forms of the ring helpers (available/size/grow)",
+            "copy-on-write; size/closed guards dominate all stores; refusal store-free; growth re-linearises into a fresh strictly larger array; header written/read with the same byte order; head advanced by the decoded length; ErrShortBuffer exactly on copied<length; fresh wrap test after every advance; count pairing; one byte kept free",
+            "DESIGN.md section 3 C06"),
+    "C07": ("decision-structure extraction of the limit test compared with the specification by a complete truth table over linear atoms; dominance; effects; lockset; exact linear forms of occupancy/free-space helpers; growth-cap guards",
+            "refuse iff (limitCount>0 & count+1>limitCount) | (limitSize>0 & size+2+len>limitSize); stores after the test; refusal store-free; Count/Size/SetLimit* under the mutex on the right fields; growth capped at limitSize+1, 4 MiB only without a limit; count pairing",
+            "DESIGN.md section 3 C07"),
     "C08": ("must-pass-through / dominance / edge-sensitive reachability on the SSA of Buffer.Write/Read/Close, channel discipline (capacity, close-once, send-vs-close ordering), baton-pass rule, lockset; plus the Deadline typestate rules of C09 for the read deadline",
             "token posted on every success path of Write under the lock; capacity>=1; re-test under lock after wake-up; EOF only on empty-then-closed; close exactly once with the flag; sends ordered with close; baton pass when data remains; deadline tested before and while waiting; lock balance; Deadline bookkeeping",
             "DESIGN.md section 3 C08"),
